@@ -176,6 +176,8 @@ type c20Input struct {
 	Pre  []int   `json:"pre,omitempty"`  // ids ended before NewPool
 	Init []int   `json:"init,omitempty"` // ids passed to NewPool, in order
 	Ops  []c20Op `json:"ops,omitempty"`
+	// Flav: how the context of an id is built (see ctxSet.build); ids not listed: WithCancel
+	Flav map[int]string `json:"flav,omitempty"`
 	// Spread (scripts): the pool is created as NewPool(s...) from a slice s of the caller with
 	// CapExtra spare capacity, which the caller goes on using (scribble, pool2); after every step
 	// the harness compares s[:cap(s)] with what the caller itself put there.
@@ -191,6 +193,10 @@ type c20Input struct {
 	// members, the first of them never-ending when Never; K, Adders, Reps, Spin, Seed as for race
 	Cancels int  `json:"cancels,omitempty"`
 	Never   bool `json:"never,omitempty"`
+	// addstorm: Adders goroutines call Add(fresh live context) PerAdder times each, a Size reader
+	// runs along, while the K members are ended one by one (and, when Cancels > 0, Cancel() is
+	// called after the last end); Reps, Seed as for race
+	PerAdder int `json:"per_adder,omitempty"`
 	// race
 	K      int   `json:"k,omitempty"`      // live initial members
 	Adders int   `json:"adders,omitempty"` // goroutines adding one fresh context each
@@ -203,12 +209,100 @@ type c20Input struct {
 // contexts by id
 
 type ctxSet struct {
-	ctx    map[int]context.Context
-	cancel map[int]context.CancelFunc
+	ctx     map[int]context.Context
+	cancel  map[int]context.CancelFunc
+	flav    map[int]string // how the context of an id is built (c20Input.Flav); "" = WithCancel
+	ref     time.Time      // deadlines are ref + minutes: a day away, never reached by a run
+	release []context.CancelFunc
 }
 
 func newCtxSet() *ctxSet {
-	return &ctxSet{ctx: map[int]context.Context{}, cancel: map[int]context.CancelFunc{}}
+	return &ctxSet{ctx: map[int]context.Context{}, cancel: map[int]context.CancelFunc{},
+		ref: time.Now().Add(24 * time.Hour).Truncate(time.Hour)}
+}
+
+// Flavours. The pool is about WHEN its members end, nothing else: what else a member carries - a
+// deadline (far away; later, earlier than or equal to another member's; nested under a parent
+// with its own deadline; already past), a cancellation cause, values, a type of the caller's own
+// with its own Deadline/Err/Value/String, a type that cannot be compared or hashed - must not
+// matter. Every flavoured context is ended by the harness through its cancel function, so for
+// the model and the spec an id is an id.
+//
+//	dl:M        WithDeadline(Background, ref+M minutes)
+//	to:M        WithTimeout(Background, until ref+M minutes) (deadline a few ns off dl:M)
+//	child:P:M   WithDeadline(WithDeadline(Background, ref+P), ref+M): parent private to the harness
+//	past        WithDeadline(Background, an hour ago): has ended; the id must be in Pre
+//	cause       WithCancelCause
+//	value       WithValue(WithCancel)
+//	custom:M    a harness type over a cancel context: Deadline() = (ref+M, true), own Err text
+//	nocmp:M     the same as a struct VALUE holding a func: comparing / hashing it panics
+type customCtx struct {
+	inner    context.Context
+	deadline time.Time
+}
+
+func (c *customCtx) Deadline() (time.Time, bool) { return c.deadline, true }
+func (c *customCtx) Done() <-chan struct{}       { return c.inner.Done() }
+func (c *customCtx) Value(k any) any             { return c.inner.Value(k) }
+func (c *customCtx) String() string              { return "c20.customCtx" }
+func (c *customCtx) Err() error {
+	if c.inner.Err() != nil {
+		return errCustomEnded
+	}
+	return nil
+}
+
+var errCustomEnded = fmt.Errorf("c20: custom context ended")
+
+type nocmpCtx struct {
+	customCtx
+	note func() // makes the struct value uncomparable and unhashable
+}
+
+func (c nocmpCtx) Deadline() (time.Time, bool) { return c.deadline, true }
+func (c nocmpCtx) Done() <-chan struct{}       { return c.inner.Done() }
+func (c nocmpCtx) Value(k any) any             { return c.inner.Value(k) }
+func (c nocmpCtx) Err() error                  { return c.customCtx.Err() }
+
+func flavMinutes(s string) time.Duration {
+	var m int
+	if _, err := fmt.Sscanf(s, "%d", &m); err != nil {
+		panic("c20: bad flavour argument " + s)
+	}
+	return time.Duration(m) * time.Minute
+}
+
+func (c *ctxSet) build(id int) (context.Context, context.CancelFunc) {
+	f := c.flav[id]
+	kind, arg, _ := strings.Cut(f, ":")
+	switch kind {
+	case "", "cancel":
+		return context.WithCancel(context.Background())
+	case "dl":
+		return context.WithDeadline(context.Background(), c.ref.Add(flavMinutes(arg)))
+	case "to":
+		return context.WithTimeout(context.Background(), time.Until(c.ref.Add(flavMinutes(arg))))
+	case "child":
+		pa, ca, _ := strings.Cut(arg, ":")
+		parent, pcancel := context.WithDeadline(context.Background(), c.ref.Add(flavMinutes(pa)))
+		c.release = append(c.release, pcancel)
+		return context.WithDeadline(parent, c.ref.Add(flavMinutes(ca)))
+	case "past":
+		return context.WithDeadline(context.Background(), time.Now().Add(-time.Hour))
+	case "cause":
+		x, cancel := context.WithCancelCause(context.Background())
+		return x, func() { cancel(errCustomEnded) }
+	case "value":
+		x, cancel := context.WithCancel(context.Background())
+		return context.WithValue(x, c20Key{}, id), cancel
+	case "custom":
+		x, cancel := context.WithCancel(context.Background())
+		return &customCtx{inner: x, deadline: c.ref.Add(flavMinutes(arg))}, cancel
+	case "nocmp":
+		x, cancel := context.WithCancel(context.Background())
+		return nocmpCtx{customCtx: customCtx{inner: x, deadline: c.ref.Add(flavMinutes(arg))}, note: func() {}}, cancel
+	}
+	panic("c20: bad flavour " + f)
 }
 
 // Ids from neverBase on are contexts that never end and whose Done() is a nil channel:
@@ -237,9 +331,25 @@ func (c *ctxSet) get(id int) context.Context {
 		c.ctx[id], c.cancel[id] = x, func() {}
 		return x
 	}
-	x, cancel := context.WithCancel(context.Background())
+	x, cancel := c.build(id)
 	c.ctx[id], c.cancel[id] = x, cancel
 	return x
+}
+
+// checkFlav: a context built with a deadline in the past has ended: the input must say so.
+func checkFlav(in c20Input) {
+	pre := map[int]bool{}
+	for _, id := range in.Pre {
+		pre[id] = true
+	}
+	for id, f := range in.Flav {
+		if isNever(id) {
+			panic("c20: never-ending ids have no flavour")
+		}
+		if f == "past" && !pre[id] {
+			panic("c20: a context with a past deadline must be listed in pre")
+		}
+	}
 }
 
 // checkNever: never-ending contexts cannot be ended, and need a Cancel somewhere in the case.
@@ -284,6 +394,37 @@ func (c *ctxSet) endAll() {
 	for _, id := range ids {
 		c.cancel[id]()
 	}
+	for _, f := range c.release {
+		f()
+	}
+}
+
+// sameCtx: interface equality that survives uncomparable dynamic types.
+func sameCtx(a, b context.Context) (eq bool) {
+	defer func() {
+		if recover() != nil {
+			na, ok1 := a.(nocmpCtx)
+			nb, ok2 := b.(nocmpCtx)
+			eq = ok1 && ok2 && na.inner == nb.inner
+		}
+	}()
+	return a == b
+}
+
+func flavShape(flav map[int]string) string {
+	if len(flav) == 0 {
+		return ""
+	}
+	ids := make([]int, 0, len(flav))
+	for id := range flav {
+		ids = append(ids, id)
+	}
+	sort.Ints(ids)
+	parts := make([]string, len(ids))
+	for i, id := range ids {
+		parts[i] = fmt.Sprintf("%d=%s", id, flav[id])
+	}
+	return "flav{" + strings.Join(parts, ",") + "}/"
 }
 
 // ---------------------------------------------------------------------------------------
@@ -625,7 +766,9 @@ func newRunner(in c20Input, later ...[]c20Op) (*runner, c20Obs) {
 		}
 	}
 	patience.begin()
+	checkFlav(in)
 	r := &runner{cs: newCtxSet(), ex: &expect{ended: map[int]bool{}}, doneBy: "none", base: poolGoroutines()}
+	r.cs.flav = in.Flav
 	for _, id := range in.Pre {
 		r.cs.end(id)
 		r.ex.ended[id] = true
@@ -679,7 +822,7 @@ func (r *runner) checkSlice(after string) {
 	}
 	full := r.slice[:cap(r.slice)]
 	for i := range full {
-		if full[i] != r.shadow[i] {
+		if !sameCtx(full[i], r.shadow[i]) {
 			r.sliceChanged = fmt.Sprintf("%s (position %d)", after, i)
 			return
 		}
@@ -872,6 +1015,10 @@ func runScript(t *tally, in c20Input) {
 	c.Class = fmt.Sprintf("script/pre%v/init%v/%s", in.Pre, in.Init, opsShape(in.Ops))
 	c.Trivial = nLiveInit == 0
 	c.Observed = map[string]any{"obs0": obs0, "obs": obs, "final_done": final, "goroutine_left": leak}
+	if len(in.Flav) > 0 {
+		c.Class = flavShape(in.Flav) + c.Class
+		t.Count("script/members_with_deadlines_causes_values_or_own_types")
+	}
 	if in.Spread {
 		c.Class = fmt.Sprintf("spread+%d/", in.CapExtra) + c.Class
 		t.Count("script/pool_created_from_a_spread_slice_the_caller_keeps_using")
@@ -1067,7 +1214,7 @@ func runNested(t *tally, in c20Input) {
 	}
 	nLiveInit := liveInit(in)
 	c.Trivial = nLiveInit == 0
-	c.Class = fmt.Sprintf("nested/pre%v/init%v/%s/add%d/%s%v/%s", in.Pre, in.Init, opsShape(in.Ops), in.M,
+	c.Class = flavShape(in.Flav) + fmt.Sprintf("nested/pre%v/init%v/%s/add%d/%s%v/%s", in.Pre, in.Init, opsShape(in.Ops), in.M,
 		in.Nested, in.NEnd, opsShape(in.Ops2))
 	t.Count("kind=nested")
 	if !prefixDone || (r.wedged != "" && nret) {
@@ -1391,6 +1538,182 @@ func cancelRaceOnce(in c20Input, delays []int) cancelRaceOutcome {
 	return o
 }
 
+// ---------------------------------------------------------------------------------------
+// addstorm: writers arriving continuously while the watcher wakes up and walks on. Whatever the
+// interleaving, every call returns, and once every context (members and everything offered) has
+// ended the pool is done and its goroutine gone.
+
+type stormOutcome struct {
+	returned, panicked bool
+	done, gone         bool
+	dropped            bool
+}
+
+func addStormOnce(in c20Input, r *hx.Rand) stormOutcome {
+	base := poolGoroutines()
+	var cancels []context.CancelFunc
+	mk := func() context.Context {
+		x, c := context.WithCancel(context.Background())
+		cancels = append(cancels, c)
+		return x
+	}
+	members := make([]context.Context, in.K)
+	mcancel := make([]context.CancelFunc, in.K)
+	for i := range members {
+		members[i], mcancel[i] = context.WithCancel(context.Background())
+	}
+	offered := make([][]context.Context, in.Adders)
+	for a := range offered {
+		for j := 0; j < in.PerAdder; j++ {
+			offered[a] = append(offered[a], mk())
+		}
+	}
+	p := kitctx.NewPool(members...)
+	var panicked atomic.Bool
+	var wg sync.WaitGroup
+	run := func(f func()) {
+		wg.Add(1)
+		go func() {
+			defer wg.Done()
+			defer func() {
+				if recover() != nil {
+					panicked.Store(true)
+				}
+			}()
+			f()
+		}()
+	}
+	for a := range offered {
+		list := offered[a]
+		run(func() {
+			for _, c := range list {
+				p.Add(c)
+			}
+		})
+	}
+	var stop atomic.Bool
+	readerDone := make(chan struct{})
+	go func() { // the Size reader runs until the writers are through
+		defer close(readerDone)
+		defer func() {
+			if recover() != nil {
+				panicked.Store(true)
+			}
+		}()
+		for !stop.Load() {
+			_ = p.Size()
+			runtime.Gosched()
+		}
+	}()
+	gaps := make([]int, in.K)
+	for i := range gaps {
+		gaps[i] = r.Intn(2000)
+	}
+	run(func() {
+		for i := range mcancel {
+			spin(gaps[i])
+			mcancel[i]()
+		}
+		if in.Cancels > 0 {
+			p.Cancel()
+		}
+	})
+	o := stormOutcome{}
+	d, rec := patience.callDeadline()
+	if returnsOK(wg.Wait, d) {
+		stop.Store(true)
+		o.returned = returnsOK(func() { <-readerDone }, d)
+	}
+	stop.Store(true)
+	for _, c := range cancels {
+		c()
+	}
+	if !o.returned {
+		o.dropped = !patience.failed(rec)
+		return o
+	}
+	o.panicked = panicked.Load()
+	d, rec = patience.deadline()
+	o.done = waitDone(p, d)
+	if !o.done {
+		o.dropped = !patience.failed(rec)
+		return o
+	}
+	d, rec = patience.deadline()
+	o.gone = goroutinesBack(base, d)
+	if !o.gone {
+		o.dropped = !patience.failed(rec)
+	}
+	return o
+}
+
+func runAddStorm(ctx *core.Ctx, in c20Input) {
+	if in.K < 1 || in.K > 3 || in.Adders < 1 || in.Adders > 4 || in.PerAdder < 1 || in.PerAdder > 100 || in.Reps < 1 {
+		panic("c20: addstorm parameters out of range")
+	}
+	r := hx.NewRand(uint64(in.Seed))
+	type agg struct {
+		o stormOutcome
+		n int
+	}
+	classes := map[string]*agg{}
+	var order []string
+	for rep := 0; rep < in.Reps; rep++ {
+		patience.begin()
+		o := addStormOnce(in, r)
+		if o.dropped {
+			ctx.Sink.Count("addstorm/dropped(liveness_wait_failed_under_short_deadline_after_3_recorded_failures)")
+			break
+		}
+		ctx.Sink.Count("addstorm/runs")
+		key := fmt.Sprintf("ret=%v/panic=%v/done=%v/gone=%v", o.returned, o.panicked, o.done, o.gone)
+		if a, ok := classes[key]; ok {
+			a.n++
+		} else {
+			classes[key] = &agg{o: o, n: 1}
+			order = append(order, key)
+		}
+		if patience.caseFailed {
+			patience.confirm()
+			ctx.Sink.Count("addstorm/liveness_failure_recorded")
+			break
+		}
+	}
+	sort.Strings(order)
+	// the case: members 0..K-1, the offers as Adds, nothing looked at until every context has
+	// ended (the order of Adds and ends is not known, and need not be: the last phase ends all)
+	var init []int
+	for i := 0; i < in.K; i++ {
+		init = append(init, i)
+	}
+	var ops []c20Op
+	for i := 0; i < in.Adders*in.PerAdder; i++ {
+		ops = append(ops, c20Op{Op: "add", M: 10 + i})
+	}
+	if in.Cancels > 0 {
+		ops = append(ops, c20Op{Op: "cancel"})
+	}
+	for _, key := range order {
+		a := classes[key]
+		obs := make([]c20Obs, len(ops))
+		for i := range obs {
+			obs[i].Skipped = true
+		}
+		c := hx.Case{Kind: "addstorm", Input: hx.MustJSON(in), Facts: map[string]any{}}
+		c.Class = fmt.Sprintf("addstorm/k%d/a%dx%d/c%d/%s", in.K, in.Adders, in.PerAdder, in.Cancels, key)
+		c.Observed = map[string]any{"all_calls_returned": a.o.returned, "a_call_panicked": a.o.panicked,
+			"done_after_every_context_ended": a.o.done, "goroutine_gone": a.o.gone, "runs_with_this_outcome": a.n}
+		if !a.o.returned || a.o.panicked {
+			c.Direct = 2
+			c.Note = "Adds arriving continuously while members end: a call did not return within its deadline, or panicked"
+		}
+		c.Coq = fmt.Sprintf("CPScript [] %s %s (false, %s) %s %s %s", hx.CoqInts(init), opsCoq(ops), hx.CoqZ(int64(in.K)),
+			pobsCoq(obs), hx.CoqBool(a.o.done), hx.CoqBool(!a.o.gone))
+		ctx.Sink.Count("kind=addstorm")
+		ctx.Sink.Add(c)
+	}
+}
+
 func runCancelRace(ctx *core.Ctx, in c20Input) {
 	if in.K < 1 || in.K > 3 || in.Cancels < 1 || in.Cancels > 3 || in.Adders < 0 || in.Adders > 2 || in.Reps < 1 {
 		panic("c20: cancelrace parameters out of range")
@@ -1479,6 +1802,8 @@ func c20Run(ctx *core.Ctx, in c20Input) {
 		runConfirmed(ctx, in, runNested)
 	case "cancelrace":
 		runCancelRace(ctx, in)
+	case "addstorm":
+		runAddStorm(ctx, in)
 	default:
 		panic("c20: bad kind " + in.Kind)
 	}
@@ -1923,6 +2248,135 @@ func reversed(xs []int) []int {
 	return out
 }
 
+var flavours = []string{"", "dl:60", "dl:120", "dl:120", "to:60", "to:120", "child:180:60", "child:60:180",
+	"cause", "value", "custom:60", "custom:120", "nocmp:90"}
+
+// randomFlav gives each id of the input a random flavour (ended ones possibly a past deadline).
+func randomFlav(r *hx.Rand, in *c20Input, ids int) {
+	pre := map[int]bool{}
+	for _, id := range in.Pre {
+		pre[id] = true
+	}
+	in.Flav = map[int]string{}
+	for id := 0; id <= ids; id++ {
+		f := flavours[r.Intn(len(flavours))]
+		if pre[id] && r.Chance(1, 3) {
+			f = "past"
+		}
+		if in.Spread && strings.HasPrefix(f, "nocmp") {
+			f = "custom:90"
+		}
+		if f != "" {
+			in.Flav[id] = f
+		}
+	}
+}
+
+// Members that carry more than a Done channel. Systematic part: 2..3 initial members whose
+// deadlines are ordered every way (later first, earlier first, equal, mixed with none), built by
+// WithDeadline / WithTimeout / as a child of a parent with its own deadline / by a type of the
+// caller's own; a newcomer with a deadline before, equal to or after those in the pool is
+// added at every position; the members end by explicit cancel in every order, or the pool is
+// cancelled. Ids: 0..n-1 initial, 4 the newcomer, 5 an already-ended context with a past deadline.
+func genFlav(ctx *core.Ctx) {
+	r := ctx.R
+	s := func(op string, m int) c20Op { return c20Op{Op: op, M: m} }
+	kinds := []func(m int) string{
+		func(m int) string { return fmt.Sprintf("dl:%d", m) },
+		func(m int) string { return fmt.Sprintf("to:%d", m) },
+		func(m int) string { return fmt.Sprintf("child:%d:%d", m+60, m) },
+		func(m int) string { return fmt.Sprintf("child:%d:%d", m, m+60) }, // the parent's deadline is the effective one
+		func(m int) string { return fmt.Sprintf("custom:%d", m) },
+	}
+	// deadline patterns, minutes after the reference instant; 0 = no deadline
+	patterns := map[int][][]int{
+		2: {{120, 60}, {60, 120}, {60, 60}, {120, 0}, {0, 60}},
+		3: {{180, 120, 60}, {60, 120, 180}, {120, 60, 120}, {60, 60, 60}, {180, 0, 60}, {60, 180, 120}},
+	}
+	for n := 2; n <= 3; n++ {
+		ids := make([]int, n)
+		for i := range ids {
+			ids[i] = i
+		}
+		for _, pat := range patterns[n] {
+			for ki, kind := range kinds {
+				if !ctx.Thorough && n == 3 && ki >= 2 && !r.Chance(1, 2) {
+					continue
+				}
+				base := c20Input{Kind: "script", Pre: []int{5}, Flav: map[int]string{5: "past"}}
+				for i, m := range pat {
+					base.Init = append(base.Init, i)
+					if m > 0 {
+						// the first member always through WithDeadline: equal minutes are then the same instant
+						if i == 0 {
+							base.Flav[i] = fmt.Sprintf("dl:%d", m)
+						} else {
+							base.Flav[i] = kind(m)
+						}
+					}
+				}
+				run := func(ops []c20Op, newcomer string) {
+					in := base
+					in.Flav = map[int]string{}
+					for k, v := range base.Flav {
+						in.Flav[k] = v
+					}
+					if newcomer != "" {
+						in.Flav[4] = newcomer
+					}
+					in.Ops = ops
+					c20Run(ctx, in)
+				}
+				for _, order := range permutations(ids) {
+					var ops []c20Op
+					for _, m := range order {
+						ops = append(ops, s("end", m))
+					}
+					run(append(ops, s("add", 5), s("size", 0)), "")
+				}
+				// a newcomer with a deadline before / equal to / after the ones in the pool, added
+				// before any member ends or after the first one did; it ends last, or first
+				for _, nm := range []int{30, pat[0], 240, 0} {
+					nf := ""
+					if nm > 0 {
+						nf = kind(nm)
+					}
+					for pos := 0; pos <= 1; pos++ {
+						if !ctx.Thorough && !r.Chance(1, 2) {
+							continue
+						}
+						order := permutations(ids)[r.Intn(len(permutations(ids)))]
+						var ops []c20Op
+						for i, m := range order {
+							if i == pos {
+								ops = append(ops, s("add", 4), s("size", 0))
+							}
+							ops = append(ops, s("end", m))
+						}
+						run(append(append([]c20Op(nil), ops...), s("size", 0), s("end", 4), s("size", 0)), nf)
+						run(append([]c20Op{s("add", 4), s("end", 4), s("size", 0)}, ops[0:]...), nf)
+					}
+				}
+				run([]c20Op{s("end", 0), s("cancel", 0), s("add", 4), s("size", 0)}, kind(240))
+			}
+		}
+	}
+	// every flavour against every flavour: two members, the second one outlives the first
+	for _, a := range flavours {
+		for _, b := range flavours {
+			in := c20Input{Kind: "script", Init: []int{0, 1}, Flav: map[int]string{}}
+			if a != "" {
+				in.Flav[0] = a
+			}
+			if b != "" {
+				in.Flav[1] = b
+			}
+			in.Ops = []c20Op{s("size", 0), s("end", 0), s("add", 0), s("size", 0), s("end", 1), s("size", 0)}
+			c20Run(ctx, in)
+		}
+	}
+}
+
 func genNested(ctx *core.Ctx) {
 	r := ctx.R
 	waitMs := 40
@@ -2018,10 +2472,21 @@ func c20Gen(ctx *core.Ctx) {
 	}
 
 	genCancelRace(ctx)
+	stormReps := 60
+	if ctx.Thorough {
+		stormReps = 300
+	}
+	for k := 1; k <= 3; k++ {
+		for _, adders := range []int{2, 4} {
+			c20Run(ctx, c20Input{Kind: "addstorm", K: k, Adders: adders, PerAdder: 60, Cancels: (k + adders/2) % 2, Reps: stormReps,
+				Seed: int64(ctx.R.U64() >> 1)})
+		}
+	}
 	genNested(ctx)
 	genFast(ctx)
 	genCancelLive(ctx)
 	genSpread(ctx)
+	genFlav(ctx)
 
 	// --- structured families: pools of 0..4 initial contexts x which of them had already ended
 	// x every order of the member cancellations x one extra operation at every position.
@@ -2116,6 +2581,9 @@ func c20Gen(ctx *core.Ctx) {
 			in.Ops = append(in.Ops, c20Op{Op: "add", M: ids}, c20Op{Op: "size"})
 		} else {
 			in.Ops = append(in.Ops, c20Op{Op: "size"})
+		}
+		if r.Chance(1, 3) {
+			randomFlav(r, &in, ids)
 		}
 		c20Run(ctx, in)
 	}
